@@ -17,7 +17,7 @@ Section Switch.
     - rewrite filter_csns_exact. reflexivity.
     - rewrite filter_csns_exact. reflexivity.
     - rewrite filter_csns_exact. reflexivity.
-    - rewrite filter_topology_exact, !sticky_orb. reflexivity.
+    - rewrite filter_topology_exact. reflexivity.
     - unfold filter_dc_nodes. rewrite dc_loop_spec. reflexivity.
     - rewrite filter_coordinates_exact. reflexivity.
     - rewrite filter_health_checks_exact. reflexivity.
@@ -54,7 +54,11 @@ Section Switch.
     - rewrite filter_service_list_exact. reflexivity.
     - rewrite exported_loop_exact by (try exact Hwf; intros; reflexivity). reflexivity.
     - rewrite filter_gateway_services_exact. reflexivity.
-    - rewrite !filter_csns_exact, filter_gateway_services_exact, !sticky_orb. reflexivity.
+    - rewrite !filter_csns_exact, filter_gateway_services_exact, filter_gateways_by_gateway_exact, !sticky_orb.
+      rewrite filter_filter. unfold removed.
+      rewrite <- (orb_assoc (negb (forallb (readable_csn az) nodes))).
+      rewrite (removed_two_passes (readable_gwsvc az) (fun g => svc_ok az EmptyString (gs_gateway g)) gws).
+      reflexivity.
     - rewrite filter_dir_ent_exact. reflexivity.
     - rewrite filter_txn_results_exact. reflexivity.
   Qed.
@@ -250,23 +254,21 @@ Section Switch.
     - apply (ids_items_unflagged txn_id).
   Qed.
 
-  Definition flag0 (r : response) : bool := match flag_of r with Some f => f | None => false end.
-
   (* The flag law: afterwards the flag is set exactly when an element whose removal has to be
-     reported was removed (or, in the branches that never clear it, when it was set before). *)
+     reported was removed by this run; what the flag was on entry does not matter. *)
   Theorem spec_flag : forall r,
     match flag_of (spec_response az r) with
-    | Some f' => f' = (sticky_type r && flag0 r) || existsb bad_item (items az r)
+    | Some f' => f' = existsb bad_item (items az r)
     | None => flag_of r = None
     end.
   Proof.
-    destruct r; cbn [spec_response flag_of sticky_type flag0 items andb orb]; try reflexivity;
+    destruct r; cbn [spec_response flag_of items]; try reflexivity;
       try (apply removed_items_of).
     - rewrite existsb_app, <- !removed_items_of. reflexivity.
     - apply removed_groups.
     - destruct entries as [l|]; [|reflexivity].
       destruct (forallb (fun e => str_empty (snd e) || intention_read az (snd e)) l); reflexivity.
-    - rewrite existsb_app, <- !removed_node_dump, orb_assoc. reflexivity.
+    - rewrite existsb_app, <- !removed_node_dump. reflexivity.
     - destruct ns as [[n m]|]; [|reflexivity].
       destruct (readable_node az n) eqn:Hr; cbn [flag_of existsb]; unfold bad_item at 1; cbn [it_readable it_flagged negb andb orb].
       + apply (removed_items_of (fun kv => ns_id (snd kv))).
@@ -279,7 +281,7 @@ Section Switch.
         rewrite (proj2 (forallb_forall _ l)); [reflexivity|]. reflexivity.
     - induction l as [|q l IH]; [reflexivity|]. cbn [existsb map]. rewrite IH.
       unfold bad_item at 2. cbn [it_readable it_flagged]. rewrite andb_comm. reflexivity.
-    - f_equal. apply removed_groups.
+    - apply removed_groups.
     - rewrite !existsb_app, <- !removed_items_of, !orb_assoc. reflexivity.
   Qed.
 
@@ -296,15 +298,15 @@ Section Switch.
 
   Theorem switch_flag r : wf r ->
     match flag_of (filter_response az r) with
-    | Some f' => f' = (sticky_type r && flag0 r) || existsb bad_item (items az r)
+    | Some f' => f' = existsb bad_item (items az r)
     | None => flag_of r = None
     end.
   Proof. intros H. rewrite switch_exact by assumption. apply spec_flag. Qed.
 
-  Theorem switch_flag_iff r f' : wf r -> flag0 r = false -> flag_of (filter_response az r) = Some f' ->
+  Theorem switch_flag_iff r f' : wf r -> flag_of (filter_response az r) = Some f' ->
     (f' = true <-> exists it, In it (items az r) /\ it_readable it = false /\ it_flagged it = true).
   Proof.
-    intros Hwf H0 Hf. pose proof (switch_flag r Hwf) as H. rewrite Hf, H0, andb_false_r in H. cbn [orb] in H.
+    intros Hwf Hf. pose proof (switch_flag r Hwf) as H. rewrite Hf in H.
     subst f'. rewrite existsb_exists. unfold bad_item. split.
     - intros (it & Hin & Hb). apply andb_true_iff in Hb as [Hb1 Hb2]. apply negb_true_iff in Hb1. eauto.
     - intros (it & Hin & Hr & Hfl). exists it. rewrite Hr, Hfl. auto.
